@@ -978,33 +978,17 @@ def check_ext(ctx, scs):
 
 
 def trace_controls(ctx):
-    """Negative controls of the two trace specs: one real, accepted trace each, then copies with one recorded
-    field corrupted; TLC must name the expected clause for every copy (otherwise the binding is vacuous)."""
+    """Negative controls of the two trace specs: one real trace each, then copies with one recorded field
+    corrupted; when TLC accepts the real trace it must name the expected clause for every copy (otherwise
+    the binding is vacuous).  The real trace itself is an ordinary case: a P: failure on it is a violation."""
     import copy
     sc = dict(kind="vec", where="alone", inputs=[dict(k="a1", n=3), dict(k="int"), dict(k="a2", n=7)], mask=[2], bs=None,
               dt="false", ret="term", kw=["random_state", "user"], meta="fresh")
-    base = record_vec(sc)
-
-    def mut(f, b):
-        t = copy.deepcopy(b)
-        f(t["events"])
-        return t
-    vec = [("ok", base),
-           ("P:per-row", mut(lambda ev: ev[0]["calls"][1]["args"][0]["d"].__setitem__(0, 1000), base)),
-           ("P:per-row", mut(lambda ev: ev[0]["out"]["items"].reverse(), base)),
-           ("P:constants-untouched", mut(lambda ev: ev[0]["calls"][1]["args"][1]["d"].__setitem__(0, 5), base)),
-           ("P:constants-untouched", mut(lambda ev: ev[0]["calls"][2]["args"][2].update(d=[3004, 3005], s="2:int64"), base)),
-           ("P:kwargs-through", mut(lambda ev: ev[0]["calls"][0]["kw"].pop("user"), base)),
-           ("P:kwargs-through", mut(lambda ev: ev[0]["calls"][0]["meta"]["batch_index"]["d"].__setitem__(0, 9), base)),
-           ("P:length", mut(lambda ev: ev[0]["out"].update(len=2, items=ev[0]["out"]["items"][:2], same=ev[0]["out"]["same"][:2]), base)),
-           ("P:dtype-false-object", mut(lambda ev: ev[0]["out"].update(cont="float64"), base)),
-           ("P:dtype-false-object", mut(lambda ev: ev[0]["out"]["same"].__setitem__(1, False), base))]
     esc = dict(kind="ext", ctx="control", salt=0, events=[
         dict(tmpl=dict(prog="echo", fields=[dict(k="lit", v=3), dict(k="pos", i=0), dict(k="kw", name="a"), dict(k="kw", name="seed")],
                        gaps=[" ", " ", " "]),
              path=p, req="int64" if p == "dtype" else "none", vec=True, vdt="none", inputs=[dict(k="arr", vals=[21, 22, 23])],
              mask=None, bs=None, kw=dict(a=3), meta=dict(a=9, batch_index=1), rs=dict(seed=5, adv=0)) for p in ("dtype", "args", "dtype")])
-    ebase = record_ext(esc)
 
     def share_seed(ev):
         ev[0]["rows"][1].update(seed=ev[0]["rows"][0]["seed"])
@@ -1013,17 +997,43 @@ def trace_controls(ctx):
     def other_seed(ev):
         ev[2]["rows"][1].update(seed=[1, 1])
         ev[2]["rows"][1]["out"][3] = [1, 1, 0]
-    ext = [("ok", ebase),
-           ("P:substitution", mut(lambda ev: ev[0]["rows"][1]["out"].__setitem__(1, [0, 21, 0]), ebase)),
-           ("P:substitution", mut(lambda ev: ev[0]["rows"][0]["out"].__setitem__(2, [0, 9, 0]), ebase)),
-           ("P:substitution", mut(lambda ev: ev[1]["rows"][0].update(cmd="echo 3 21 9 " + ev[1]["rows"][0]["seed_s"]), ebase)),
-           ("P:parse", mut(lambda ev: ev[0]["rows"][1]["out"].__setitem__(0, [0, 4, 0]), ebase)),
-           ("P:parse", mut(lambda ev: ev[0]["rows"][1].update(outdt="float64"), ebase)),
-           ("P:seed-row-distinct", mut(share_seed, ebase)),
-           ("P:seed-deterministic", mut(other_seed, ebase))]
-    for module, cases, name in (("Vectorize_Trace", vec, "ctl_vec"), ("External_Trace", ext, "ctl_ext")):
+    vec_muts = [("P:per-row", lambda ev: ev[0]["calls"][1]["args"][0]["d"].__setitem__(0, 1000)),
+                ("P:per-row", lambda ev: ev[0]["out"]["items"].reverse()),
+                ("P:constants-untouched", lambda ev: ev[0]["calls"][1]["args"][1]["d"].__setitem__(0, 5)),
+                ("P:constants-untouched", lambda ev: ev[0]["calls"][2]["args"][2].update(d=[3004, 3005], s="2:int64")),
+                ("P:kwargs-through", lambda ev: ev[0]["calls"][0]["kw"].pop("user")),
+                ("P:kwargs-through", lambda ev: ev[0]["calls"][0]["meta"]["batch_index"]["d"].__setitem__(0, 9)),
+                ("P:length", lambda ev: ev[0]["out"].update(len=2, items=ev[0]["out"]["items"][:2], same=ev[0]["out"]["same"][:2])),
+                ("P:dtype-false-object", lambda ev: ev[0]["out"].update(cont="float64")),
+                ("P:dtype-false-object", lambda ev: ev[0]["out"]["same"].__setitem__(1, False))]
+    ext_muts = [("P:substitution", lambda ev: ev[0]["rows"][1]["out"].__setitem__(1, [0, 21, 0])),
+                ("P:substitution", lambda ev: ev[0]["rows"][0]["out"].__setitem__(2, [0, 9, 0])),
+                ("P:substitution", lambda ev: ev[1]["rows"][0].update(cmd="echo 3 21 9 " + ev[1]["rows"][0]["seed_s"])),
+                ("P:parse", lambda ev: ev[0]["rows"][1]["out"].__setitem__(0, [0, 4, 0])),
+                ("P:parse", lambda ev: ev[0]["rows"][1].update(outdt="float64")),
+                ("P:seed-row-distinct", share_seed),
+                ("P:seed-deterministic", other_seed)]
+    for module, scen, rec, muts, name in (("Vectorize_Trace", sc, record_vec, vec_muts, "ctl_vec"),
+                                          ("External_Trace", esc, record_ext, ext_muts, "ctl_ext")):
+        base = rec(scen)
+        cases = [("ok", base)]
+        for want, f in muts:
+            t = copy.deepcopy(base)
+            try:
+                f(t["events"])
+            except Exception:       # the real trace does not have the expected shape: it will not be accepted below
+                continue
+            cases.append((want, t))
         got = ctx.validate(module, [c[1] for c in cases], name=name)
-        ctx.traces_validated -= len(cases)
+        ctx.case((name, "base"), nontrivial=True)
+        if got[0]["verdict"] != "ok":
+            # the code under test fails the control's own scenario: an ordinary violation, no control possible
+            at = max(0, min(got[0]["l"] - 2, len(base["events"]) - 1))
+            ctx.fail(got[0]["verdict"], scen, detail=dict(at_event=at, event=base["events"][at]))
+            continue
+        ctx.traces_validated -= len(cases) - 1
+        if len(cases) != len(muts) + 1:
+            raise tlc.MachineryFailure("%s control: accepted trace could not be corrupted as planned" % module)
         for (want, _t), v in zip(cases, got):
             if v["verdict"] != want:
                 raise tlc.MachineryFailure("%s control: expected %s, TLC said %r" % (module, want, v))
